@@ -83,7 +83,8 @@ var firstClasses = []string{
 	"partial", "nothing",
 }
 
-var verdictClasses = []string{"token", "accept-any", "reject-all", "panic-before", "panic-after", "double-receive", "no-receive-reject"}
+var verdictClasses = []string{"token", "accept-any", "reject-all", "panic-before", "panic-after", "double-receive", "no-receive-reject",
+	"setid-then-reject", "setid-then-accept", "setid-accept-unwritable"}
 var timingClasses = []string{"pre", "post", "split"}
 var afterClasses = []string{"hold", "close", "closewrite"}
 var chunkClasses = []string{"whole", "one", "rand"}
@@ -103,6 +104,7 @@ type connRec struct {
 	script         []byte
 	checkerCalls   int
 	checkerRet     int64
+	assignedID     string
 	verdictReached bool
 	verdictOK      bool
 	panicked       bool
@@ -190,6 +192,17 @@ func checker(sess auth.Session, fn auth.RecvOnce) (ret interface{}, stat *erpc.S
 	var info string
 	if stat = fn(&info); !stat.OK() {
 		return nil, stat
+	}
+	if strings.HasPrefix(mode, "setid-") {
+		// a checker naming the session after the presented identity (unique per connection: id takeover is C07's business)
+		id := "user:" + info + "@" + rec.addr
+		sess.SetID(id)
+		rec.mu.Lock()
+		rec.assignedID = id
+		rec.mu.Unlock()
+		if mode == "setid-then-reject" {
+			return nil, erpc.NewStatus(403, "auth fail", "named, then refused")
+		}
 	}
 	switch mode {
 	case "double-receive":
@@ -475,7 +488,7 @@ func describe(rec *connRec, fs []outFrame, tail int) map[string]interface{} {
 	defer rec.mu.Unlock()
 	d := map[string]interface{}{
 		"spec": rec.spec, "client_bytes": len(rec.script), "checker_calls": rec.checkerCalls, "verdict_reached": rec.verdictReached,
-		"verdict_ok": rec.verdictOK, "checker_panicked": rec.panicked, "checker_return_stamp": rec.checkerRet,
+		"verdict_ok": rec.verdictOK, "id_assigned_by_checker": rec.assignedID, "checker_panicked": rec.panicked, "checker_return_stamp": rec.checkerRet,
 		"handlers": rec.handlers, "hooks": rec.hooks, "server_wrote_bytes": len(rec.out), "server_frames": fs, "unparsable_tail_bytes": tail,
 		"serveconn_returned": atomic.LoadInt32(&rec.served) == 1, "server_end_closed": rec.cb.IsClosed(),
 	}
@@ -670,42 +683,66 @@ func finish(rec *connRec) {
 // evaluate applies the oracle clauses at a quiescent point. final: the clients have all gone away.
 func evaluate(srv erpc.Peer, cs *caseState, recs []*connRec, final bool) []finding {
 	var out []finding
-	open := 0
+	// the session index as it is now: every listed session is attributed to a connection by its remote address
+	listedByAddr := map[string][]string{}
+	listedTotal := 0
+	srv.RangeSession(func(s erpc.Session) bool {
+		listedTotal++
+		a := s.RemoteAddr().String()
+		listedByAddr[a] = append(listedByAddr[a], s.ID())
+		return true
+	})
+	openAccepted, listedEndedAccepted, firstFailed := 0, 0, -1
 	for i, rec := range recs {
 		rec.mu.Lock()
-		failed := !rec.verdictOK
+		served := atomic.LoadInt32(&rec.served) == 1
+		accepted := rec.verdictOK && served && rec.sstat.OK()
+		// not authenticated: the verdict was not OK / never reached, or the exchange could not be completed
+		// (the AUTH_REPLY was not written) and the accept path refused the connection
+		failed := !rec.verdictOK || (served && !rec.sstat.OK())
+		refused := served && !rec.sstat.OK()
 		judged := rec.verdictReached
 		calls := rec.checkerCalls
 		ret := rec.checkerRet
+		assigned := rec.assignedID
 		handlers := append([]evt(nil), rec.handlers...)
 		hooks := append([]evt(nil), rec.hooks...)
 		outb := append([]byte(nil), rec.out...)
-		accepted := rec.verdictOK && atomic.LoadInt32(&rec.served) == 1 && rec.sstat.OK()
 		rec.mu.Unlock()
 		add := func(symptom, detail string) { out = append(out, finding{i, symptom, detail}) }
 		if calls > 1 {
 			add("checker-invoked-n", fmt.Sprintf("the checker was invoked %d times for one connection", calls))
 		}
 		if failed {
+			if firstFailed < 0 {
+				firstFailed = i
+			}
 			if len(handlers) > 0 {
 				add("handler-ran", fmt.Sprintf("%d handler invocation(s) (%s first) on a connection whose authentication did not succeed", len(handlers), handlers[0].Name))
 			}
 			if len(hooks) > 0 {
 				add("hook-ran", fmt.Sprintf("%d per-message hook invocation(s) (%s first) on a connection whose authentication did not succeed", len(hooks), hooks[0].Name))
 			}
-			if (judged || final) && !rec.cb.IsClosed() {
-				add("not-closed", "the server has not closed the connection at quiescence although the checker's verdict was not OK")
+			if (judged || refused || final) && !rec.cb.IsClosed() {
+				add("not-closed", "the server has not closed the connection at quiescence although its authentication did not succeed")
 			}
+			// listed? under the default id (remote address), under the id the checker gave it, and by enumeration.
+			// A connection still waiting in its exchange (not refused yet) may carry the name its checker gave it.
 			if s, ok := srv.GetSession(rec.addr); ok && s != nil {
-				add("listed", "GetSession finds a session for the connection")
+				add("listed", "GetSession(<remote address>) finds a session for the connection")
 			}
-			srv.RangeSession(func(s erpc.Session) bool {
-				if s.RemoteAddr().String() == rec.addr {
-					add("listed", "RangeSession lists a session for the connection")
-					return false
+			if refused || final {
+				if assigned != "" {
+					if s, ok := srv.GetSession(assigned); ok && s != nil {
+						add("listed", fmt.Sprintf("GetSession(%q) - the id the checker assigned with SetID before the connection was refused - still finds a session", assigned))
+					}
 				}
-				return true
-			})
+				if ids := listedByAddr[rec.addr]; len(ids) > 0 {
+					add("listed", fmt.Sprintf("RangeSession lists a session (id %q) for the refused connection; CountSession=%d", ids[0], srv.CountSession()))
+				}
+			} else if ids := listedByAddr[rec.addr]; len(ids) > 0 && (assigned == "" || ids[0] != assigned) {
+				add("listed", fmt.Sprintf("RangeSession lists a session (id %q) for a connection whose exchange has not completed", ids[0]))
+			}
 			fs, tail := parseOut(outb)
 			switch {
 			case len(fs) > 1:
@@ -715,41 +752,50 @@ func evaluate(srv erpc.Peer, cs *caseState, recs []*connRec, final bool) []findi
 			case tail > 0:
 				add("extra-frames-written", fmt.Sprintf("the server wrote %d bytes that are not a frame", tail))
 			}
-		} else {
-			if calls != 1 && accepted {
-				add("checker-invoked-n", fmt.Sprintf("the checker was invoked %d times for an accepted connection", calls))
-			}
-			for _, h := range handlers {
-				if h.At < ret {
-					add("handled-before-verdict", fmt.Sprintf("handler %s entered at logical time %d, the checker returned at %d", h.Name, h.At, ret))
-					break
-				}
-			}
-			for _, h := range hooks {
-				if h.At < ret {
-					add("handled-before-verdict", fmt.Sprintf("hook %s ran at logical time %d, the checker returned at %d", h.Name, h.At, ret))
-					break
-				}
-			}
-			if accepted {
-				// counted whether or not it is still open: an accepted session that ended may stay in the
-				// index (index insert after the read loop started - that is C07's business, not this property's)
-				open++
-			}
+			continue
 		}
-	}
-	// a failed connection must not be counted: at most the accepted ones can be
-	if n := srv.CountSession(); n > open {
-		// attribute to the failed connections of the case (any of them may be the one counted)
-		for i, rec := range recs {
-			rec.mu.Lock()
-			failed := !rec.verdictOK
-			rec.mu.Unlock()
-			if failed {
-				out = append(out, finding{i, "listed", fmt.Sprintf("CountSession reports %d sessions, only %d connections of this peer were ever accepted", n, open)})
+		if calls != 1 && accepted {
+			add("checker-invoked-n", fmt.Sprintf("the checker was invoked %d times for an accepted connection", calls))
+		}
+		for _, h := range handlers {
+			if h.At < ret {
+				add("handled-before-verdict", fmt.Sprintf("handler %s entered at logical time %d, the checker returned at %d", h.Name, h.At, ret))
 				break
 			}
 		}
+		for _, h := range hooks {
+			if h.At < ret {
+				add("handled-before-verdict", fmt.Sprintf("hook %s ran at logical time %d, the checker returned at %d", h.Name, h.At, ret))
+				break
+			}
+		}
+		if accepted {
+			switch {
+			case !rec.cb.IsClosed():
+				openAccepted++
+				if len(listedByAddr[rec.addr]) == 0 {
+					core.Add("open_accepted_connections_not_listed", 1) // recorded, not asserted (not in the statement)
+				}
+			case len(listedByAddr[rec.addr]) > 0:
+				// an accepted session that has ended and is still in the index: ServeConn inserts after the read
+				// loop started (C07's business). Tolerated for accepted connections only.
+				listedEndedAccepted++
+				core.Add("ended_accepted_sessions_still_listed", 1)
+			}
+		}
+	}
+	// CountSession, exactly: the accepted connections that are still open (+ the tolerated ended accepted ones actually listed)
+	attributed := false
+	for _, f := range out {
+		attributed = attributed || f.symptom == "listed"
+	}
+	if n := srv.CountSession(); !attributed && (n > openAccepted+listedEndedAccepted || listedTotal > openAccepted+listedEndedAccepted) {
+		// a surplus that could not be attributed to one connection by address or id
+		i := firstFailed
+		if i < 0 {
+			i = 0
+		}
+		out = append(out, finding{i, "listed", fmt.Sprintf("CountSession reports %d sessions (%d enumerated); %d accepted connections are open and %d ended accepted ones are still listed", n, listedTotal, openAccepted, listedEndedAccepted)})
 	}
 	return out
 }
@@ -761,6 +807,12 @@ func genConn(r *core.Rand, first, verdict string) connSpec {
 	sp.Timing = timingClasses[r.Intn(len(timingClasses))]
 	sp.After = afterClasses[r.Intn(len(afterClasses))]
 	sp.Chunk = chunkClasses[r.Intn(len(chunkClasses))]
+	if verdict == "setid-accept-unwritable" {
+		sp.After = "close" // the client is gone before the AUTH_REPLY can be written
+	}
+	if verdict == "setid-then-accept" && sp.After == "close" {
+		sp.After = "hold" // the control: named and let in, the reply is deliverable
+	}
 	return sp
 }
 
@@ -813,6 +865,10 @@ func main() {
 		}
 	}
 	for i := 0; i < extra; i++ {
+		if i%6 == 1 { // checkers that name the session during the exchange, with clients that present an identity
+			conns = append(conns, genConn(r, r.Pick("auth-good", "auth-good+calls", "auth-bad", "two-auths"), r.Pick("setid-then-reject", "setid-accept-unwritable", "setid-then-accept")))
+			continue
+		}
 		if i%3 == 0 { // connections that get in: the clauses about accepted connections need them
 			sp := genConn(r, r.Pick("auth-good", "auth-good+calls", "auth-good+calls", "two-auths"), r.Pick("token", "accept-any"))
 			if sp.After == "close" {
@@ -847,5 +903,3 @@ func main() {
 	}
 	core.Finish()
 }
-
-var _ = strings.Join
